@@ -14,7 +14,7 @@ use std::collections::BTreeSet;
 use std::sync::Arc;
 
 /// Paths of the tree alphabet. Hidden and git-ignored ones only exist in the CLI phase.
-const PATHS: &[&str] = &["x.py", "a/x.py", "b/x.py", "b/b/x.py", "a/b/y.py", "sp ace/x.py", "d.d/x.py", "b/b/b/z.py", "hid/x.py"];
+const PATHS: &[&str] = &["x.py", "a/x.py", "b/x.py", "b/b/x.py", "a/b/y.py", "sp ace/x.py", "d.d/x.py", "b/b/b/z.py", "hid/x.py", "pkg.py/x.py"];
 const HIDDEN: &[&str] = &[".hid/x.py", ".h.py", "a/.deep/x.py"];
 const GITIGNORED: &[&str] = &["ign/x.py", "a/ign/y.py"];
 const GLOBS: &[&str] = &["*.py", "a/**", "**/x.py", "b/x.py", "**", "b/*", "**/b/**", ".hid/**", "hid/*"];
@@ -213,7 +213,7 @@ fn check_cli(cfg: &Cfg, c: &CliCase, sink: &Sink) {
 }
 
 pub fn run(cfg: &Cfg, sink: &Arc<Sink>) -> Report {
-    let mut report = Report::new("cases = directory trees over paths {x.py, a/x.py, b/x.py, b/b/x.py, a/b/y.py, 'sp ace/x.py', d.d/x.py, b/b/b/z.py} (every file holds one block named after its path) × 0..2 positional globs × 0..2 --ignore globs from {*.py, a/**, **/x.py, b/x.py, **, b/*, **/b/**, .hid/**, hid/*} × {no diff, diff naming any subset of ≤2 files}; library phase over an in-memory tree (all trees of ≤2, thorough ≤3, paths); CLI phase in real directories with hidden files, a .gitignore'd directory, real `git diff` output (plain edits and rename+edit with -M) and every directory of the tree as current directory; oracle: the set of files with listed blocks equals ((walk ∖ hidden ∖ git-ignored) ∩ globs ∪ files named in the diff) ∖ --ignore, with `**` implied when run without globs and without diff; non-trivial = every case");
+    let mut report = Report::new("cases = directory trees over paths {x.py, a/x.py, b/x.py, b/b/x.py, a/b/y.py, 'sp ace/x.py', d.d/x.py, b/b/b/z.py, hid/x.py, pkg.py/x.py (a directory named like a source file)} (every file holds one block named after its path) × 0..2 positional globs × 0..2 --ignore globs from {*.py, a/**, **/x.py, b/x.py, **, b/*, **/b/**, .hid/**, hid/*} × {no diff, diff naming any subset of ≤2 files}; library phase over an in-memory tree (all trees of ≤2, thorough ≤3, paths); CLI phase in real directories with hidden files, a .gitignore'd directory, real `git diff` output (plain edits and rename+edit with -M) and every directory of the tree as current directory; oracle: the set of files with listed blocks equals ((walk ∖ hidden ∖ git-ignored) ∩ globs ∪ files named in the diff) ∖ --ignore, with `**` implied when run without globs and without diff; non-trivial = every case");
     report.assume("globset decides whether a glob matches a path (same crate, default options, as the documented forms are defined by it)");
     let thorough = cfg.tier == Tier::Thorough;
     // Library phase.
@@ -246,7 +246,7 @@ pub fn run(cfg: &Cfg, sink: &Arc<Sink>) -> Report {
     let full: Vec<usize> = (0..all.len()).collect();
     let mut trees: Vec<Vec<usize>> = vec![full.clone()];
     trees.extend((0..all.len()).map(|i| vec![i]));
-    for pair in [[2usize, 3], [1, 4], [0, 9], [3, 7], [5, 6], [10, 12], [2, 13], [11, 3], [8, 9]] {
+    for pair in [[2usize, 3], [1, 4], [0, 10], [3, 7], [5, 6], [11, 13], [2, 14], [12, 3], [8, 10], [9, 0]] {
         trees.push(pair.to_vec());
     }
     if thorough {
